@@ -393,6 +393,7 @@ pub fn run_c01_c02(ctx: &mut Ctx, which: Which) {
     placement_family(ctx, which, "placement_checks", placement_checks, t.pick(240_000, 3_000_000));
     placement_family(ctx, which, "placement_near_mate", placement_near_mate, t.pick(120_000, 1_000_000));
     placement_family(ctx, which, "placement_extreme_legal_material", placement_crowd, t.pick(60_000, 800_000));
+    placement_family(ctx, which, "placement_queen_fans_120_to_218_moves", placement_fan, t.pick(8_000, 120_000));
     if which == Which::C01 {
         // black-box perft of the shipped binary on generated positions
         run_prop(
